@@ -2,7 +2,7 @@
    fails to compile if Props/C12.v is weakened, renamed or given other hypotheses. *)
 From Coq Require Import SpecFloat.
 Require Import Base Value Float PrintOptions ParseOptions Reader Scan Num Parser DatumProofs DepthProofs.
-Require Import ReaderProofs TokenProofs RoundtripProofs TriviaProofs ElispRoundtrip ElispTrivia PositionProofs SpanProofs FuelProofs FloatFuel.
+Require Import ReaderProofs TokenProofs RoundtripProofs TriviaProofs ElispRoundtrip ElispTrivia PositionProofs SpanProofs FuelProofs FloatFuel CrossProofs SourcesAgree.
 Require Import Lexpr.Props.C12.
 
 Check (C12_four_ways :
@@ -85,6 +85,12 @@ Check (C12_iteration_terminates :
 Check (C12_histories_total :
   forall ro alpha fast std_parse k inp cs,
   Forall call_ok (run_history ro alpha fast std_parse (fuel_for inp) cs (init_state k inp))).
+
+Check (C12_iterate_slice_stream :
+  forall ro alpha fast std_parse (s : bytes) n,
+  Forall2 (rpres eq)
+    (iterate_values ro alpha fast std_parse (fuel_for (bytes_events s)) n (init_state SrcSlice (bytes_events s)))
+    (iterate_values ro alpha fast std_parse (fuel_for (bytes_events s)) n (init_state SrcIo (bytes_events s)))).
 
 Check (C12_closer_consumed :
   let inp := bytes_events (s2b "1 2 ) 3") in
